@@ -37,6 +37,27 @@ CHECKS = {
    text="~1500 v5 packet values weighted to shortenable packets x every outbound limit 0..160 (quick) / 0..720 (thorough) plus boundary grid x problem-information on/off, plus values whose encoding must fail and all v3 generator values; oracle: one reference frame, truthful length, within limit, only whole Reason String / User Properties dropped, failed encode leaves zero bytes, no panic.",
    note="Trusts refmqtt.rs; the encoder may be conservative by up to 20 bytes before 'dropped although it fits' is reported.", design="4/C09"),
  "C10": dict(engine="enum+simnet", technique=B_TECH + "; connection part: " + A_TECH,
+   text="Codec part: streams of valid packets with payload sizes around chunk/varint boundaries, all 2^(n-1) fragmentations up to 11/14 bytes and every single/double cut and fixed chunk size beyond, x min_chunk_size {0,1,4,1024,32768}, compared with the reference parse of the unfragmented stream. Connection part: all four roles x reader pace {read_all, read() with every read released by an explorer event, never reads} x min_chunk_size {0,1,4,1024} x payload buffer {4 B, 32 KiB}: a stream of two QoS 1 publishes (12 and 7 payload bytes) + PINGREQ delivered in every sequence of up to 4 (quick) / 6 (thorough) deliveries of 1, (3,) 6, 9 or all remaining bytes, interleaved in every order with the reader's steps; oracle: each handler is announced the declared size and reads exactly its own bytes in order, one PUBACK each in order, the PINGREQ after the payloads is answered (nothing leaked into the next packet), no error.",
+   note="Trusts refmqtt.rs. " + A_NOTE, design="4/C10"),
+ "C11": dict(engine="simnet", technique=A_TECH,
+   text="All histories of up to 3-5 packets over {PUBLISH q1/q2, SUBSCRIBE, UNSUBSCRIBE, PUBREL} x id {1,2} (clients: QoS 1 + PUBREL) incl. non-initial states, handler/protocol completions placed everywhere, <=1 injection while runnable; exact attribution (payload / filter tags) and a reference in-use set decide: a packet is never delivered while an exchange with its id is open, never refused when its id was acknowledged free, refusals take the version's form, unknown PUBREL is refused.",
+   note=A_NOTE + " PUBREL naming an id held by a non-QoS-2 exchange is outside the statement and not generated.", design="4/C11"),
+ "C05": dict(engine="simnet", technique=A_TECH,
+   text="All schedules (orders of Start/PeerAck/PeerAckBatch/Cancel/window events at quiescence plus <=1 (quick) / <=2 (thorough) injections while tasks are runnable) of cap+1..cap+2 application tasks using the awaiting send APIs against send limits 1..3 in all four roles; the window invariant is evaluated after every task poll and every event.",
+   note=A_NOTE, design="4/C05"),
+ "C06": dict(engine="simnet", technique=A_TECH,
+   text="Per role 1-3 application sends (QoS 1 auto / caller-chosen id, QoS 2 with held receipt, client subscribe / unsubscribe) started in every order, interleaved with every peer sequence of up to 2 (quick) / 3 (thorough) acknowledgements over every ack type x id {1,2,5,9}; reference = FIFO of sends awaiting their first ack + set of released QoS 2 ids: a matching ack completes exactly that send with its contents, anything else completes nothing and ends the connection with one protocol-error Stop, never a panic; converse family (correct peer, locally failing sends) and a 66k / 140k-send packet-id wrap-around history per role.",
+   note=A_NOTE + " Hostile acks are written at quiescent points; PUBCOMP before the endpoint's PUBREL is outside the statement.", design="4/C06"),
+ "C07": dict(engine="simnet", technique=A_TECH + " (fault enumeration: the termination cause is an explorer event, injected at every decision point)",
+   text="Per role four base schedules (two gated publish handlers + gated SUBSCRIBE in flight; a streamed inbound PUBLISH half received with the handler blocked in read(); one send awaiting its ack + one parked on the send window + one ready() future; the inbound stream delivered one byte per write) x ten termination causes (peer close, read error, write error, undecodable bytes, protocol-violating packet, publish-handler error, protocol-handler error, keep-alive expiry on the virtual clock, sink.close(), sink.force_close()) injected before/after every step of the base schedule at quiescence and, with one (quick) / two (thorough) deviations, between any two task polls, for peer close / read error / force-close at every byte offset; oracle: exactly one Stop of the class the statement assigns to the cause, every send/readiness future resolved with an error, blocked payload reader saw an error or was cancelled, handlers cancelled only after the Stop was handled, connection task completes, no panic, nothing left executing after 60 s of virtual time.",
+   note=A_NOTE, design="4/C07"),
+ "C08": dict(engine="simnet", technique=A_TECH,
+   text="Per role 2-3 application operations over {QoS 0/1/2 sends, streamed sends of 6 bytes (exact in one chunk, in two, second chunk one byte too long, half then dropped), subscribe/unsubscribe, sends that fail locally: 65536-byte topic, over the peer's maximum packet size, packet id in use, over-long filter}; every chunk is an explorer event, so other sends, peer acknowledgements, an inbound PINGREQ / QoS 1 PUBLISH (dispatcher response) or an application close() interleave at every position (1 deviation quick, 2 thorough); the full byte stream captured on the peer side is parsed by the independent decoder: whole packets only (truncated tail only as the streamed PUBLISH of an ended connection), Ok <-> exactly one packet, local Err <-> zero bytes, streamed payload = accepted chunks with the declared size.",
+   note=A_NOTE, design="4/C08"),
+ "C09": dict(engine="enum", technique=B_TECH,
+   text="~1500 v5 packet values weighted to shortenable packets x every outbound limit 0..160 (quick) / 0..720 (thorough) plus boundary grid x problem-information on/off, plus values whose encoding must fail and all v3 generator values; oracle: one reference frame, truthful length, within limit, only whole Reason String / User Properties dropped, failed encode leaves zero bytes, no panic.",
+   note="Trusts refmqtt.rs; the encoder may be conservative by up to 20 bytes before 'dropped although it fits' is reported.", design="4/C09"),
+ "C10": dict(engine="enum+simnet", technique=B_TECH + "; connection part: " + A_TECH,
    text="Codec part: streams of valid packets with payload sizes around chunk/varint boundaries, all 2^(n-1) fragmentations up to 11/14 bytes and every single/double cut and fixed chunk size beyond, x min_chunk_size {0,1,4,1024,32768}, compared with the reference parse of the unfragmented stream.",
    note="Trusts refmqtt.rs. Connection part not built yet in this revision.", design="4/C10"),
  "C12": dict(engine="simnet", technique=A_TECH,
